@@ -64,7 +64,7 @@ var tokTypConsts = map[string]bool{"packageToken": true, "identifierToken": true
 	"delimiterToken": true, "literalToken": true, "literalRuneToken": true, "literalByteToken": true, "nullToken": true, "layoutToken": true}
 
 
-var leanTy = map[aty]string{tStr: "Str", tBool: "Bool", tInt: "Int", tDef: "Def", tFile: "FileS", tMapDef: "List (Str × Def)", tMapStr: "List (Str × Str)", tSliceStr: "List Str", tWriter: "Str", tComment: "Str", tTag: "List (Str × Str)", tCode: "Code", tCtx: "Option Code", tOptCode: "Option Code", tSliceCode: "List Code", tMapCode: "List (Code × Code)", tTokTyp: "Go.TokTyp"}
+var leanTy = map[aty]string{tStr: "Str", tBool: "Bool", tInt: "Int", tDef: "Def", tFile: "FileS", tMapDef: "List (Str × Def)", tMapStr: "List (Str × Str)", tSliceStr: "List Str", tWriter: "Str", tComment: "Str", tTag: "List (Str × Str)", tCode: "Code", tKV: "Str × Str × Code × Code", tSliceKV: "List (Str × Str × Code × Code)", tCtx: "Option Code", tOptCode: "Option Code", tSliceCode: "List Code", tMapCode: "List (Code × Code)", tTokTyp: "Go.TokTyp"}
 
 // fields of jen.File that the registry functions may touch -> (FileS field, type)
 var fileFields = map[string]struct {
@@ -99,6 +99,7 @@ type algo struct {
 	tokSrc      map[string]string // local of type token -> the Code expression it was asserted from
 	tokOpt      map[string]string // … "O" when that expression is an Option Code
 	allowShadow bool
+	kvName      string // Dict.render: the name of its local struct type
 	fileVar     string // entry points: the name of the *File parameter (rendered as `f`)
 }
 
@@ -260,6 +261,10 @@ func (a *algo) expr(e ast.Expr, env aenv) (string, aty) {
 				return base + ".multi", tBool
 			case "items":
 				return base + "_items", tSliceCode
+			}
+		case tKV:
+			if p, ok := kvProj[x.Sel.Name]; ok {
+				return base + p, kvType[x.Sel.Name]
 			}
 		case tToken:
 			if x.Sel.Name == "typ" {
@@ -469,7 +474,7 @@ func (a *algo) call(x *ast.CallExpr, env aenv) (string, aty) {
 	switch fun {
 	case "len":
 		v, t := a.expr(x.Args[0], env)
-		if len(x.Args) == 1 && (t == tStr || t == tSliceStr || t == tMapDef || t == tMapStr || t == tMapCode || t == tSliceCode) {
+		if len(x.Args) == 1 && (t == tStr || t == tSliceStr || t == tMapDef || t == tMapStr || t == tMapCode || t == tSliceCode || t == tSliceKV) {
 			return "(Int.ofNat " + v + ".length)", tInt
 		}
 	case "[]byte", "string":
@@ -863,8 +868,12 @@ func assigned(list []ast.Stmt, env aenv) []string {
 						// a render through the Code interface also registers imports in f
 						if c, ok := as.Rhs[0].(*ast.CallExpr); ok {
 							if sel, ok := c.Fun.(*ast.SelectorExpr); ok && (sel.Sel.Name == "render" || sel.Sel.Name == "renderItems") {
-								if id, ok := sel.X.(*ast.Ident); ok && (env[id.Name] == tCode || env[id.Name] == tGroup || env[id.Name] == tStmtRecv) {
-									set["f"] = true
+								// (any variable receiver: a Code value, possibly declared inside the block;
+								// `Comment(c).render` has a call as receiver and registers nothing)
+								if _, ok := sel.X.(*ast.Ident); ok {
+									if _, hasF := env["f"]; hasF {
+										set["f"] = true
+									}
 								}
 							}
 						}
@@ -1877,7 +1886,7 @@ var algoTargets = []string{".IsReservedWord", "File.isLocal", "File.isValidAlias
 	// null-ness (open recursion through the Code interface: `recNull`)
 	"token.isNull", "comment.isNull", "Group.isNullItems", "Group.isNull", "Statement.isNull", "Dict.isNull",
 	// the render methods of Statement and Group (algo_render.go)
-	"Statement.render", "Group.renderItems", "Group.render",
+	"Statement.render", "Group.renderItems", "Group.render", "Dict.render",
 	// the entry points, with the environment as a parameter (algo_effect.go)
 	"File.Render", "Statement.RenderWithFile", "Group.RenderWithFile", "File.Save"}
 
